@@ -2630,6 +2630,11 @@ func (er *EVPNEthernetAutoDiscoveryRoute) DecodeFromBytes(data []byte) error {
 	if er.Label, err = labelDecode(data); err != nil {
 		return err
 	}
+	// the label is the last field: octets behind it would be dropped when
+	// the route is sent on, under the length it was received with
+	if len(data) != 3 {
+		return NewMessageError(BGP_ERROR_UPDATE_MESSAGE_ERROR, BGP_ERROR_SUB_MALFORMED_ATTRIBUTE_LIST, nil, "bad Ethernet Auto-discovery Route length")
+	}
 	return nil
 }
 
@@ -2764,6 +2769,10 @@ func (er *EVPNMacIPAdvertisementRoute) DecodeFromBytes(data []byte) error {
 			return err
 		}
 		er.Labels = append(er.Labels, label)
+	} else if len(data) != 0 {
+		// neither nothing nor a second label: octets that would be dropped
+		// when the route is sent on, under the length it was received with
+		return malformedAttrListErr("bad length of MAC/IP Advertisement Route")
 	}
 	return nil
 }
